@@ -257,6 +257,16 @@ def ev(n: ast.AST, env: dict[str, Any], funcs: dict[str, ast.FunctionDef] | None
                 return getattr(*args)
             if n.func.id == "isinstance" and len(args) == 2:
                 return _isinstance(args[0], args[1])
+            if n.func.id == "hasattr" and len(args) == 2 and isinstance(args[1], str):
+                if isinstance(args[0], Obj):
+                    try:
+                        _attr(args[0], args[1], funcs, depth)
+                        return True
+                    except Unsupported:
+                        return False
+                if isinstance(args[0], _OPEN) or args[0] is None or isinstance(args[0], (int, float, str)):
+                    return hasattr(args[0], args[1])
+                raise Unsupported("hasattr on an unknown value")
             if n.func.id == "dict" and len(args) <= 1:
                 return dict(*args, **kws)
             tgt = env.get(n.func.id, (funcs.get("$globals") or {}).get(n.func.id) if isinstance(funcs.get("$globals"), dict) else None)
